@@ -260,11 +260,11 @@ func c16Job(shard, nshards int, tier string) Job {
 				}
 			}
 		}
-		podSets := [][]string{{"web", "db", "cli2"}, {"web", "db", "cli2-off"}, {"web", "db", "bare"}}
+		podSets := [][]string{{"web", "db", "cli2"}, {"web", "db", "cli2-off"}, {"web", "db", "bare"}, {"web", "db-plain", "cli2"}}
 		if tier == "thorough" {
-			podSets = append(podSets, []string{"web", "db-plain", "cli2"}, []string{"web", "db", "cli2", "noip"})
+			podSets = append(podSets, []string{"web", "db", "cli2", "noip"})
 		}
-		externals := []string{"10.9.0.5", "10.9.1.5", "10.9.2.7", "172.16.0.1"}
+		externals := []string{"10.9.0.5", "10.9.1.5", "10.9.2.7", "172.16.0.1", "10.0.1.9"} // the last one: the address of a pod that went away
 		ports := []int{80, 81, 53}
 		quirkHits := map[string]int{}
 		n := 0
@@ -287,20 +287,53 @@ func c16Job(shard, nshards int, tier string) Job {
 					name string
 					pods []string
 					pols []string
+					// events: after the sync of (pods, pols) these pod events lead to the cluster under test; no further full sync
+					events []c15Event
+					// staleClause: deviations after this start are reported under this clause (a named, known kind of staleness)
+					staleClause string
 				}
-				starts := []start{{"empty kernel", nil, nil}}
+				starts := []start{{name: "empty kernel"}}
 				relabel := [][]string{{"web", "db", "cli2"}, {"web", "db-plain", "cli2"}}
 				for _, alt := range relabel {
 					// only label changes of the same pods on the same node (pods that vanish or move are C15's known findings)
 					if fmt.Sprint(alt) != fmt.Sprint(ps) && (fmt.Sprint(ps) == fmt.Sprint(relabel[0]) || fmt.Sprint(ps) == fmt.Sprint(relabel[1])) {
-						starts = append(starts, start{"pods " + fmt.Sprint(alt), alt, pl})
+						starts = append(starts, start{name: "pods " + fmt.Sprint(alt), pods: alt, pols: pl})
 					}
+				}
+				// pod events instead of a full sync: a pod of another namespace gets its address / goes away, a pod loses a label
+				replace := func(from, to string) []string {
+					out := append([]string{}, ps...)
+					for i := range out {
+						if out[i] == from {
+							out[i] = to
+						}
+					}
+					return out
+				}
+				has := func(n string) bool {
+					for _, x := range ps {
+						if x == n {
+							return true
+						}
+					}
+					return false
+				}
+				if has("cli2") {
+					starts = append(starts, start{name: "pod event: cli2 (ns2) gets its address", pods: replace("cli2", "cli2-pending"), pols: pl,
+						events: []c15Event{{Kind: "pod-update", Pod: pwPodMenu["cli2"], Old: pwPodMenu["cli2-pending"]}}})
+				}
+				starts = append(starts, start{name: "pod event: a pod of ns2 on another node is deleted", pods: append(append([]string{}, ps...), "ghost2"), pols: pl,
+					events: []c15Event{{Kind: "pod-delete", Pod: pwPodMenu["ghost2"]}}})
+				if has("db-plain") {
+					starts = append(starts, start{name: "pod event: db loses its label role=client", pods: replace("db-plain", "db"), pols: pl,
+						events:      []c15Event{{Kind: "pod-update", Pod: pwPodMenu["db-plain"], Old: pwPodMenu["db"]}},
+						staleClause: "membership-from-old-labels-kept-after-pod-update"})
 				}
 				for i, pn := range pl {
 					if _, ok := menu[pn+"@wide"]; ok {
 						wide := append([]string{}, pl...)
 						wide[i] = pn + "@wide"
-						starts = append(starts, start{"policies " + fmt.Sprint(wide), ps, wide})
+						starts = append(starts, start{name: "policies " + fmt.Sprint(wide), pods: ps, pols: wide})
 					}
 				}
 				for _, st := range starts {
@@ -310,8 +343,15 @@ func c16Job(shard, nshards int, tier string) Job {
 						w.setCluster(mkCluster(st.pods, st.pols))
 						w.pm.Run()
 					}
-					w.setCluster(c)
-					w.pm.Run()
+					if st.events != nil {
+						cur := mkCluster(st.pods, st.pols)
+						for _, ev := range st.events {
+							applyEvent(w, &cur, ev)
+						}
+					} else {
+						w.setCluster(c)
+						w.pm.Run()
+					}
 					ref := newRefCluster(c)
 					var addrs []string
 					for _, p := range c.Pods {
@@ -355,6 +395,11 @@ func c16Job(shard, nshards int, tier string) Job {
 												best = mask
 											}
 										}
+									}
+									if best < 0 && st.staleClause != "" {
+										r.violate("C16", name, "", st.staleClause, "UpdatePod",
+											fmt.Sprintf("%s: installed rules %s, semantics %s; matched rules: %v", desc, got, want, trace), []string{desc})
+										continue
 									}
 									if best < 0 {
 										r.violate("C16", name, "unexplained", "verdict-differs-from-networkpolicy-semantics", "unexplained",
